@@ -10,10 +10,10 @@ package props
 // dump of a fork that received an immediately-failing program).
 
 import (
-	"os"
 	"encoding/json"
 	"fmt"
 	"math/big"
+	"os"
 	"sort"
 	"strings"
 	"testing"
